@@ -233,6 +233,17 @@ def run_dynamic(spec):
                 m = group.makegateway(bare + "//id=master")
                 gw = group.makegateway("socket//installvia=master")
                 probe_on = [m]
+                # a second socket worker on the same host while the first one lives (it is served from another thread there)
+                try:
+                    gw2 = group.makegateway("socket//installvia=master")
+                    second = gw2.remote_exec("channel.send(channel.receive() * 2)")
+                    second.send(21)
+                    second = second.receive(20)
+                except BaseException as e:  # noqa
+                    second = f"{type(e).__name__}: {str(e)[-200:]}"
+                res.count("second_socket_workers_on_one_host")
+                if second != 42:
+                    res.violation("second-socket-worker-on-a-host-does-not-come-up:socket", f"{label}: {second!r}")
             for w in probe_on:
                 imp, ver, nosite, ignenv, nm, already = w.remote_exec(PROBE).receive(30)
                 if already:
